@@ -212,3 +212,83 @@ Fixpoint e2e_run (shared : bool) (s : estate) (ops : list eop) : list eobs * lis
       let '(obs, st) := e2e_run shared s' rest in (ob :: obs, st)
   end.
 
+
+(* ---- end-to-end cases on virtual channels: one (shared-mode) controller per channel, a
+   writer holds a gate on each of its channels, a frame is reported authorized iff every
+   channel of the frame that the writer holds authorizes (streamWriter.write /
+   virtualWriter.write accumulate ErrUnauthorized over the frame) ---- *)
+Inductive vop :=
+| VOpen (w subj : N) (chans : list (N * N)) (eou : bool)   (* (channel, authority) in cfg order *)
+| VWrite (w : N) (keys : list N)                            (* channels in frame order *)
+| VSet (w : N) (chans : list (N * N))
+| VClose (w : N).
+(* status code, authorized flag (2 = not a write) *)
+Definition vobs : Type := N * N.
+
+Record vstate := VS { v_ctls : list (N * ctl); v_writers : list (N * list N); v_used : list N }.
+Definition vinit : vstate := VS [(1, init); (2, init); (3, init)] [] [].
+
+Definition vhandle (w k : N) : N := w * 8 + k.
+Definition vctl (s : vstate) (k : N) : ctl :=
+  match find (fun p => fst p =? k) (v_ctls s) with Some p => snd p | None => init end.
+Definition vset_ctl (s : vstate) (k : N) (c : ctl) : vstate :=
+  VS (map (fun p => if fst p =? k then (k, c) else p) (v_ctls s)) (v_writers s) (v_used s).
+Definition vchans (s : vstate) (w : N) : option (list N) :=
+  match find (fun p => fst p =? w) (v_writers s) with Some p => Some (snd p) | None => None end.
+Definition vrange : trange := TR 10000000000 9223372036854775807.
+
+Definition vrelease (s : vstate) (w : N) (ks : list N) : vstate :=
+  fold_left (fun s k => vset_ctl s k (fst (step true true (vctl s k) (Release (vhandle w k))))) ks s.
+
+(* open the channels in cfg order; on the first refusal close what was opened so far *)
+Fixpoint vopen (s : vstate) (w subj : N) (eou : bool) (todo : list (N * N)) (done : list N)
+  : vstate * ostat :=
+  match todo with
+  | [] => (VS (v_ctls s) (v_writers s ++ [(w, done)]) (v_used s), Ok)
+  | (k, a) :: rest =>
+      let '(c', ou) := step true true (vctl s k)
+                            (Open (OCfg (vhandle w k) subj a vrange false eou false)) in
+      match out_st ou with
+      | Ok => vopen (vset_ctl s k c') w subj eou rest (done ++ [k])
+      | st => (vrelease (vset_ctl s k c') w done, st)
+      end
+  end.
+
+Definition e2ev_step (s : vstate) (o : vop) : vstate * vobs :=
+  match o with
+  | VOpen w subj chans eou =>
+      if existsb (N.eqb w) (v_used s) then (s, (5, 2)) else
+      let s0 := VS (v_ctls s) (v_writers s) (v_used s ++ [w]) in
+      let '(s', st) := vopen s0 w subj eou chans [] in (s', (st_code st, 2))
+  | VWrite w keys =>
+      match vchans s w with
+      | None => (s, (5, 2))
+      | Some held =>
+          let az := forallb (fun k => if existsb (N.eqb k) held
+                                      then fst (authorize true (vctl s k) (vhandle w k))
+                                      else true) keys in
+          (s, (0, if az then 1 else 0))
+      end
+  | VSet w chans =>
+      match vchans s w with
+      | None => (s, (5, 2))
+      | Some held =>
+          (fold_left (fun s p =>
+             if existsb (N.eqb (fst p)) held
+             then vset_ctl s (fst p) (fst (step true true (vctl s (fst p)) (SetAuth (vhandle w (fst p)) (snd p))))
+             else s) chans s, (0, 2))
+      end
+  | VClose w =>
+      match vchans s w with
+      | None => (s, (5, 2))
+      | Some held =>
+          let s' := vrelease s w held in
+          (VS (v_ctls s') (filter (fun p => negb (fst p =? w)) (v_writers s')) (v_used s'), (0, 2))
+      end
+  end.
+
+Fixpoint e2ev_run (s : vstate) (ops : list vop) : list vobs :=
+  match ops with
+  | [] => []
+  | o :: rest => let '(s', ob) := e2ev_step s o in ob :: e2ev_run s' rest
+  end.
